@@ -161,11 +161,32 @@ def parseSynType (st : Option String) : Option SynType :=
       else none
     else none
 
-/-- `parse_synonym_xref` without the ORCID special case (outside the model: the generator never writes `orcid.org`) -/
+/-- `ORCID_PT = .*orcid\.org/(?P<orcid>\d{4}-\d{4}-\d{4}-\d{4})$` used with `match` (ASCII digits; `.` does not cross a line break) -/
+def orcidOf (x : String) : Option String :=
+  let cs := x.toList
+  let n := cs.length
+  if n < 29 then none
+  else
+    let tail := cs.drop (n - 19)
+    let mid := (cs.drop (n - 29)).take 10
+    let dig (c : Char) : Bool := '0' ≤ c && c ≤ '9'
+    let shape := match tail with
+      | [a1, a2, a3, a4, d1, b1, b2, b3, b4, d2, c1, c2, c3, c4, d3, e1, e2, e3, e4] =>
+        dig a1 && dig a2 && dig a3 && dig a4 && d1 == '-' && dig b1 && dig b2 && dig b3 && dig b4 && d2 == '-' &&
+          dig c1 && dig c2 && dig c3 && dig c4 && d3 == '-' && dig e1 && dig e2 && dig e3 && dig e4
+      | _ => false
+    if mid == "orcid.org/".toList && shape && !((cs.take (n - 29)).contains '\n') then some ("ORCID:" ++ String.ofList tail) else none
+
+/-- `parse_synonym_xref`: the ORCID special case, else a CURIE, else dropped -/
+def parseSynXref (x : String) : Option String :=
+  match orcidOf x with
+  | some c => some c
+  | none => (termIdOf x).map curieValue
+
 def parseSynXrefs (xs : List String) : Option (List String) :=
   if xs.isEmpty then none
   else
-    let parsed := xs.filterMap (fun x => (termIdOf x).map curieValue)
+    let parsed := xs.filterMap parseSynXref
     if parsed.isEmpty then none else some parsed
 
 def parseSynonym (s : SynJ) : Synonym := ⟨s.val, parseCategory s.pred, parseSynType s.synType, parseSynXrefs s.xrefs⟩
